@@ -92,6 +92,11 @@ func enumObligations(fn *ssa.Function) []bndOb {
 				add(in, "make", k+")")
 			}
 		case *ssa.TypeAssert:
+			if !x.CommaOk && types.Identical(x.X.Type(), x.AssertedType) {
+				// i.(I) with I the static type of i: the nil check the compiler emits for an interface method value
+				// (i.M); it fails exactly when calling i.M() would, which is not an obligation of this engine either
+				return
+			}
 			if !x.CommaOk {
 				add(in, "assert", pathOf(x.X)+".("+types.TypeString(x.AssertedType, func(p *types.Package) string { return p.Name() })+")")
 			}
